@@ -592,6 +592,28 @@ class Location(JSONField):
                     raise LocationException(report)
         return self
 
+    def to_dict(self) -> Dict[str, str] or None:
+        """
+        Convert to a dictionary skipping unset fields. Specialized from the generic
+        implementation in JSONField because 0.0 is a legitimate latitude or longitude.
+        :return:
+        """
+        d = {k: v for k, v in self.__dict__.items() if v is not None}
+        if len(d) == 0:
+            return None
+        return d
+
+    def to_json(self) -> str:
+        """
+        Dumps to JSON the fields that are set, keeping zero coordinates.
+        If there are no values in the object, returns empty string.
+        :return:
+        """
+        d = self.to_dict()
+        if d is None:
+            return ''
+        return json.dumps(d, skipkeys=True, sort_keys=True)
+
     def to_latlon(self) -> Tuple[float, float]:
         """
         Return a tuple of floats indicating Lat/Lon of the location. Uses Nomatim OpenStreetMaps
